@@ -10,6 +10,7 @@ import (
 	"path/filepath"
 	"regexp"
 	"runtime"
+	"runtime/pprof"
 	"sort"
 	"strconv"
 	"strings"
@@ -131,6 +132,18 @@ func runWorker(c *Check, tier string, seed int64, batch, only int, out string) {
 	b := NewB(c.ID, tier, seed, batch)
 	b.Only = only
 	b.Boost = c.Boost
+	if hp := os.Getenv("VERIF_HEAPPROF"); hp != "" {
+		// development aid: periodic heap profiles of a worker
+		go func() {
+			for i := 0; ; i++ {
+				time.Sleep(30 * time.Second)
+				if f, err := os.Create(fmt.Sprintf("%s.%d", hp, i%2)); err == nil {
+					pprof.Lookup("heap").WriteTo(f, 0)
+					f.Close()
+				}
+			}
+		}()
+	}
 	c.Run(b)
 	res := b.Result()
 	data, _ := json.Marshal(res)
